@@ -29,7 +29,9 @@ CONSTANTS
     KeyWithVersion, \* TRUE: expanded-schema cache keyed by name + version (the code as it is)
                     \* FALSE: keyed by name only (the behaviour before the fix; negative config)
     MaxCalls,       \* length bound of a call history
-    Mode            \* "mc" exhaustive histories | "sim" random histories with emission | "table" probe table
+    Mode            \* "mc" exhaustive histories | "sim" random histories with emission |
+                    \* "all" exhaustive histories of exactly MaxCalls calls with emission |
+                    \* "table" probe table | "schemas" schema table
 
 (* Structure extracted from the schemas of the current tree (harness/versions.py), handed over as   *)
 (* one JSON file (a cfg file cannot hold tuples):                                                    *)
@@ -134,7 +136,7 @@ Pick(S) == IF Mode = "sim" THEN {RandomElement(S)} ELSE S
 Record(c) ==
     /\ last' = c
     /\ ncalls' = ncalls + 1
-    /\ hist' = IF Mode = "sim" THEN Append(hist, [call |-> c, exp |-> Judge(c)]) ELSE hist
+    /\ hist' = IF Mode \in {"sim", "all"} THEN Append(hist, [call |-> c, exp |-> Judge(c)]) ELSE hist
     /\ UNCHANGED target
 
 \* Validator.validate(doc, schema_name = root, version = v) on THE object
@@ -195,7 +197,7 @@ Init ==
     /\ target \in (IF Mode = "sim" THEN 2..MaxCalls ELSE {MaxCalls})
 
 Next ==
-    /\ Mode # "table"
+    /\ Mode \in {"mc", "sim", "all"}
     /\ ncalls < target
     /\ (Validate \/ Validate2 \/ Validate3 \/ GetVersioned \/ GetVersioned2 \/ Export
         \/ ModValidate \/ ModExport \/ ModCreate)
@@ -221,7 +223,7 @@ Bound == ncalls <= MaxCalls
 -----------------------------------------------------------------------------
 (* Emission                                                                *)
 
-Emit == (Mode = "sim" /\ ncalls = target) => PrintT(ToJson(hist))
+Emit == (Mode \in {"sim", "all"} /\ ncalls = target) => PrintT(ToJson(hist))
 
 \* probe table: every document x the versions at, just below and just above the bounds of its
 \* entry (and no version); fault documents x Versions (and no version)
@@ -239,4 +241,9 @@ RowsOf(d) ==
            guardsok |-> \A g \in d.guards : Accept(g, c[2])] : c \in VClasses(d.entry)}
 
 EmitTable == Mode = "table" => \A d \in DocRecs : PrintT(ToJson(RowsOf(d)))
+
+\* schema table: for every schema name x version, the annotated entries the versioned schema must
+\* not hold, and the annotated defaults create() must give
+SchemaRows(n) == {[name |-> n, v |-> v, absent |-> Absent(n, v), defaults |-> DefaultsOf(n, v)] : v \in VersionsN}
+EmitSchemas == Mode = "schemas" => \A n \in Names : PrintT(ToJson(SchemaRows(n)))
 =============================================================================
